@@ -38,7 +38,7 @@ def run(prog, rep):
     guarded(rep, "C09.R1", "crate", lambda: C09._use_set(prog, rep))
     guarded(rep, "C09.R2", C09.WSL, lambda: C09._every_path_pushes(prog, rep))
     guarded(rep, "C09.R3", C09.FSP, lambda: C09._join(prog, rep))
-    for l in ("C02", "C11.R3"):
+    for l in ("C02", "C11.R3", "C10", "C12.R3", "C12.R7"):
         st = lemmas.status(prog, l)
         if st == "failed":
             rep.violation("C14.R0", "crate", "lemma:" + l, "crate", "lemma %s fails in this run" % l)
